@@ -106,3 +106,10 @@ Definition run_status (pid : Z) (k : killres) (r : kstatus) (names : list bytes)
         else jnone) ].
 Definition run_status_raw (pid : Z) (k : killres) (content : option bytes) (names : list bytes) : jv :=
   JL [ jv_outcome jbool (pid_exists_linux pid k content names) ].
+
+(* text level: a status file whose first record is the Name of a process / thread called [comm] *)
+Definition run_status_named (pid : Z) (k : killres) (comm : bytes) (pre : list bytes) (tgid post : bytes)
+           (names : list bytes) : jv :=
+  run_status pid k {| ks_pre := k_name_body comm :: pre; ks_tgid := tgid; ks_post := post |} names.
+(* the Name record alone, for the comparison with the running kernel *)
+Definition run_name_lines (comms : list bytes) : jv := JL (map (fun c => JB (k_name_line c)) comms).
